@@ -192,5 +192,7 @@ def build(tier, repo):
     r6.require(18)
     r7 = chk.rule("C04-R7", "cone-space vectors normed with misc.snrm2/sdot", "documented norms")
     rc.norm_discipline(r7, w, "cvxprog", "cpl")
+    rc.cone_product_rule(r7, w, "cvxprog", "cpl")
+    rc.cone_product_rule(r7, w, "cvxprog", "cp")
     r7.require(4)
     return chk
